@@ -41,7 +41,7 @@ def rank_data_contract(vector):
 class PredictWorld:
     """symbolic game + executions of the real predict_* of one model on it"""
 
-    def __init__(self, model, sizes, identical=(), feas_timeout_ms=300, stub_rank=True):
+    def __init__(self, model, sizes, identical=(), feas_timeout_ms=300, stub_rank=True, safety=False):
         """identical: pairs (i, k) of teams that carry the same symbols (team k reuses team i's);
         stub_rank: _rank_data is replaced by its contract (no forking)"""
         self.model, self.sizes = model, tuple(sizes)
@@ -49,7 +49,7 @@ class PredictWorld:
         game.stub_phi_real(self.S)
         if stub_rank:
             self.S.ns["_rank_data"] = rank_data_contract
-        self.ctx = Ctx("R", feas_timeout_ms=feas_timeout_ms)
+        self.ctx = Ctx("R", feas_timeout_ms=feas_timeout_ms, safety=safety)
         self.alias = {k: i for (i, k) in identical}
         with active(self.ctx):
             self.setup()
